@@ -688,7 +688,8 @@ def compute_rspca(
         robust=robust,
         compute=compute,
     )
-    # rescale eigen values
-    eigen_values *= (n_components + oversample - 1) / (m - 1)
+    # rescale eigen values (the compressed matrix has fewer rows than
+    # `n_components + oversample` when the data has fewer features than that)
+    eigen_values *= (Xcompressed.shape[0] - 1) / (m - 1)
 
     return B, A, eigen_values
